@@ -339,7 +339,11 @@ func runC04(r *Run) error {
 				extra["valid_by_construction"] = valid
 				extra["type"] = typ
 				extra["sig"] = c04Sig(strings.TrimSuffix(name, "+resigned"))
-				r.AddCase(fmt.Sprintf("(CMut %s %v)", term, mis), extra, true)
+				ctor := "CMut"
+				if route == "cache" {
+					ctor = "CMutCached"
+				}
+				r.AddCase(fmt.Sprintf("(%s %s %v)", ctor, term, mis), extra, true)
 				r.Count("mutation:" + name)
 				r.Count("route:" + route)
 				r.Count(fmt.Sprintf("misaddressed=%v", mis))
@@ -367,6 +371,8 @@ func runC04(r *Run) error {
 				route := "sync"
 				if m.resigned && r.Rng.Intn(2) == 0 {
 					route = "ancestor"
+				} else if r.Rng.Intn(4) == 0 {
+					route = "cache" // found in the heads cache by Load after a restart
 				}
 				if err := deliver(name, f, signer, key, val, unique, false, m.resigned, cid.Undef, route); err != nil {
 					return err
